@@ -415,12 +415,15 @@ for _p, _what in (("C01", "sikOf / K1 / K2 (and rakp3Code, which the BMC must ac
     PROPS[_p]["note"] += ("; Gen/Keys.lean rests on the hash.Hash / io.Writer contract (Write appends what the slice holds at the call and does not retain it, Sum(nil) is the MAC of "
                           "what was written since the last Reset, hmac.New starts reset) written out in its header and in Lemmas/GenKeys.lean: mac")
     PROPS[_p]["modelled"] = PROPS[_p]["modelled"] + ["key formulas keygen gives up on (listed in Gen/Keys.lean: gaveUp, with reasons; none at delivery) stay hand models tied by correspondence only"]
+# (Proofs/GenOrch/TranslatedOk.lean — "everything translated at delivery still is" — is NOT an obligation of any property: it is
+# global, so a give-up on one function would alarm the properties of the others; each F_gen_eq module already fails to build
+# when F is no longer translated.)
 # The ORCHESTRATION functions (loops over SendCommand) regenerated by tools/decgen -orch -> lean/Bmc/Gen/Orch.lean and proved equal
 # to the hand models (lean/Bmc/Proofs/GenOrch/<Function>.lean): items 1, 2 -> C16; 2, 3 -> C12.
-GENORCH_DCMI = ["Bmc.Proofs.GenOrch.TranslatedOk", "Bmc.Proofs.GenOrch.GetEntityInstances", "Bmc.Proofs.GenOrch.GetSensorMap",
+GENORCH_DCMI = ["Bmc.Proofs.GenOrch.GetEntityInstances", "Bmc.Proofs.GenOrch.GetSensorMap",
                 "Bmc.Proofs.GenOrch.CountRecordIDs", "Bmc.Proofs.GenOrch.GetSensorInfo"]
 GENORCH_RETRIEVE = ["Bmc.Proofs.GenOrch.RetrieveSupportedCipherSuites"]
-GENORCH_DETERMINE = ["Bmc.Proofs.GenOrch.TranslatedOk", "Bmc.Proofs.GenOrch.DetermineCipherSuite"]
+GENORCH_DETERMINE = ["Bmc.Proofs.GenOrch.DetermineCipherSuite"]
 PROPS["C16"]["claim"] += (" REGENERATED ORCHESTRATION: getEntityInstances, getSensorMap, sensorMap.CountRecordIDs, GetSensorInfo and RetrieveSupportedCipherSuites "
                           "are RE-TRANSLATED from the Go source on every run (tools/decgen -orch -> Gen/Orch.lean: SendCommand + ValidateResponse as an application of the "
                           "BMC's answer function, a PARAMETER threaded through a state monad; the command struct as the cell of the state; for loops with break as "
@@ -435,7 +438,7 @@ PROPS["C12"]["claim"] += (" REGENERATED ORCHESTRATION: determineCipherSuite (wit
                           "retrieveSupportedCipherSuites for every preference list and every typed BMC: the suite proposed or the error, whether discovery ran, and the list "
                           "indices asked for (Proofs/GenOrch/DetermineCipherSuite.lean, RetrieveSupportedCipherSuites.lean).")
 PROPS["C12"]["proofs"] = PROPS["C12"]["proofs"] + GENORCH_DETERMINE + GENORCH_RETRIEVE
-GENORCH_SDR = ["Bmc.Proofs.GenOrch.TranslatedOk", "Bmc.Proofs.GenOrch.WalkSDRs", "Bmc.Proofs.GenOrch.RetrieveSDRRepository"]
+GENORCH_SDR = ["Bmc.Proofs.GenOrch.WalkSDRs", "Bmc.Proofs.GenOrch.RetrieveSDRRepository"]
 _GENORCH_SDR_CLAIM = (" REGENERATED ORCHESTRATION: walkSDRs and RetrieveSDRRepository are RE-TRANSLATED from the Go source on every run (tools/decgen -orch -> Gen/Orch.lean: "
                       "SendCommand / ReserveSDRRepository / GetSDRRepositoryInfo as applications of the BMC's answer functions, the reused GetSDRCmd as the cell of the state whose "
                       "response part every command replaces, gopacket.NewPacket(.., Lazy).Layer(..) as the regenerated SDR / FullSensorRecord decoders of Gen/Dec.lean on a copy "
